@@ -70,6 +70,7 @@ Record variant := {
   v_view_key_bug : bool;          (* ambiguity lookup keyed by string_view::data()  (|x| looked up as  x| ) *)
   v_sort_raw : bool;              (* sort names printed without protection *)
   v_default_raw : bool;           (* Model::getDefinition's default definition carries the raw symbol name *)
+  v_create_any : bool;            (* formal parameters are created without looking at the symbols of the logic *)
   v_formal_by_term : bool;        (* NameClashResolver compares terms (name+sort of nullary symbols) rather than names *)
   v_assign_raw : bool;            (* get-assignment: raw names, seekp on the empty list, text used as a format *)
   v_echo_raw : bool;              (* get-value echo prints raw names, streams NULL for (as ..) nodes, glues "(!" *)
@@ -79,7 +80,8 @@ Record variant := {
 Definition faithful : variant :=
   {| v_table := gen_tokenNames; v_quote_empty := gen_protect_empty; v_quote_minus_digit := gen_protect_minus_digit;
      v_view_key_bug := gen_disamb_key_is_view_data; v_sort_raw := gen_sort_raw_names;
-     v_default_raw := gen_default_definition_raw_name; v_formal_by_term := gen_clash_by_term;
+     v_default_raw := gen_default_definition_raw_name; v_create_any := gen_formal_args_unchecked;
+     v_formal_by_term := gen_clash_by_term;
      v_assign_raw := gen_assignment_seekp_raw_format; v_echo_raw := gen_echo_raw_names; v_core_raw := gen_core_raw_names |}.
 
 (* the pinned commit, written out: the refutations are stated about it and stay true when the tree is repaired;
@@ -89,7 +91,7 @@ Definition pinned_tokenNames : list string :=
 
 Definition pinned : variant :=
   {| v_table := pinned_tokenNames; v_quote_empty := false; v_quote_minus_digit := false;
-     v_view_key_bug := true; v_sort_raw := true; v_default_raw := true; v_formal_by_term := true;
+     v_view_key_bug := true; v_sort_raw := true; v_default_raw := true; v_create_any := true; v_formal_by_term := true;
      v_assign_raw := true; v_echo_raw := true; v_core_raw := true |}.
 
 (* words that the two lexers reserve and the table lacks *)
@@ -98,7 +100,7 @@ Definition missing_reserved : list string :=
 
 Definition repaired : variant :=
   {| v_table := gen_tokenNames ++ missing_reserved; v_quote_empty := true; v_quote_minus_digit := true;
-     v_view_key_bug := false; v_sort_raw := false; v_default_raw := false; v_formal_by_term := false;
+     v_view_key_bug := false; v_sort_raw := false; v_default_raw := false; v_create_any := false; v_formal_by_term := false;
      v_assign_raw := false; v_echo_raw := false; v_core_raw := false |}.
 
 (* ---------------------------------------------------------------------------------------------
@@ -194,30 +196,11 @@ Definition formal_base (symName : string) : string :=
   then String (ascii_of_nat ((code (front symName) + 1) mod 26 + 97)) (tail_str gen_formal_prefix)
   else gen_formal_prefix.
 
-Fixpoint numbered (base : string) (start n : nat) : list string :=
-  match n with O => [] | S k => (base ++ dec start) :: numbered base (S start) k end.
-
 Record definition := {
   df_name : string;                       (* as it is printed after define-fun *)
   df_params : list (string * sort);       (* formal parameter names (unprotected) and sorts *)
   df_ret : sort }.
 
-(* ModelBuilder::addToTheoryFunction: the first valuation of a function creates its signature;
-   uniqueNum is a counter of the builder *)
-Definition builder_definition (v : variant) (d : symdecl) (uniqueNum : nat) : definition * nat :=
-  let n := List.length (sd_args d) in
-  ({| df_name := protectName v (sd_name d) (sd_interp d);
-      df_params := combine (numbered (formal_base (sd_name d)) uniqueNum n) (sd_args d);
-      df_ret := sd_ret d |}, uniqueNum + n).
-
-(* Model::getDefinition for a symbol the builder never saw *)
-Definition default_definition (v : variant) (d : symdecl) : definition :=
-  {| df_name := if v_default_raw v then sd_name d else protectName v (sd_name d) (sd_interp d);
-     df_params := combine (numbered (formal_base (sd_name d)) 0 (List.length (sd_args d))) (sd_args d);
-     df_ret := sd_ret d |}.
-
-(* NameClashResolver (Interpret.cc:753).  forbidden: the user's nullary symbols.  The code compares PTRefs of
-   variables, i.e. name and sort together (v_formal_by_term); the repair compares names, against every user symbol. *)
 Fixpoint sort_eqb (a b : sort) : bool :=
   match a, b with
   | Sort n1 l1, Sort n2 l2 =>
@@ -230,6 +213,59 @@ Fixpoint sort_eqb (a b : sort) : bool :=
        end) l1 l2
   end.
 
+(* Model::isFormalArgNameFree (repair): every symbol called name is a nullary symbol of this sort *)
+Definition arg_name_free (tbl : list symdecl) (name : string) (s : sort) : bool :=
+  forallb (fun d => negb (String.eqb (sd_name d) name) || (sd_nullary d && sort_eqb (sd_ret d) s)) tbl.
+
+Definition var_decl (name : string) (s : sort) : symdecl :=
+  {| sd_name := name; sd_args := []; sd_ret := s; sd_interp := false |}.
+
+(* name = base + num++ (pinned: taken as it comes; repaired: until it is free); fuel bounds the skipped candidates *)
+Fixpoint next_param (v : variant) (tbl : list symdecl) (base : string) (s : sort) (num fuel : nat) : option (string * nat) :=
+  match fuel with
+  | O => None
+  | S f => let name := base ++ dec num in
+           if v_create_any v || arg_name_free tbl name s then Some (name, S num)
+           else next_param v tbl base s (S num) f
+  end.
+
+(* the formal parameters of one definition; tbl: the symbols of the logic, extended by the variables created *)
+Fixpoint create_params (v : variant) (tbl : list symdecl) (base : string) (num : nat) (sorts : list sort)
+  : option (list (string * sort) * nat * list symdecl) :=
+  match sorts with
+  | [] => Some ([], num, tbl)
+  | s :: r =>
+    match next_param v tbl base s num (S (List.length tbl)) with
+    | None => None
+    | Some (name, num') =>
+      match create_params v (var_decl name s :: tbl) base num' r with
+      | None => None
+      | Some (ps, n2, tbl2) => Some ((name, s) :: ps, n2, tbl2)
+      end
+    end
+  end.
+
+(* ModelBuilder::addToTheoryFunction: the first valuation of a function creates its signature;
+   uniqueNum is a counter of the builder *)
+Definition builder_definition (v : variant) (tbl : list symdecl) (d : symdecl) (uniqueNum : nat)
+  : option (definition * nat * list symdecl) :=
+  match create_params v tbl (formal_base (sd_name d)) uniqueNum (sd_args d) with
+  | None => None
+  | Some (ps, u', tbl') =>
+    Some ({| df_name := protectName v (sd_name d) (sd_interp d); df_params := ps; df_ret := sd_ret d |}, u', tbl')
+  end.
+
+(* Model::getDefinition for a symbol the builder never saw *)
+Definition default_definition (v : variant) (tbl : list symdecl) (d : symdecl) : option (definition * list symdecl) :=
+  match create_params v tbl (formal_base (sd_name d)) 0 (sd_args d) with
+  | None => None
+  | Some (ps, _, tbl') =>
+    Some ({| df_name := if v_default_raw v then sd_name d else protectName v (sd_name d) (sd_interp d);
+             df_params := ps; df_ret := sd_ret d |}, tbl')
+  end.
+
+(* NameClashResolver (Interpret.cc:753).  forbidden: the user's nullary symbols.  The code compares PTRefs of
+   variables, i.e. name and sort together (v_formal_by_term); the repair compares names, against every user symbol. *)
 (* hasClash.  faithful: the parameter is one of the user's constants (same name and sort: the same PTRef).
    repaired: its name is the name of any user symbol, or some parameter of any printed definition (allp: the parameters
    of all definitions, which exist as variables of the logic) has the same name and another sort. *)
